@@ -167,6 +167,30 @@ theorem recover3 (l : List ι) (y f0 f1 f2 : ι → K) (a b c a0 b0 c0 : K)
     (by linear_combination -h0) (by linear_combination -h1) (by linear_combination -h2)
   exact ⟨sub_eq_zero.mp ha, sub_eq_zero.mp hb, sub_eq_zero.mp hc⟩
 
+/-- The normal equations with a non-singular Gram matrix have at most one solution (three basis functions). -/
+theorem unique_solution3 (l : List ι) (y f0 f1 f2 : ι → K) (a b c a' b' c' : K)
+    (h0 : S l (fun i => (y i - (a * f0 i + b * f1 i + c * f2 i)) * f0 i) = 0)
+    (h1 : S l (fun i => (y i - (a * f0 i + b * f1 i + c * f2 i)) * f1 i) = 0)
+    (h2 : S l (fun i => (y i - (a * f0 i + b * f1 i + c * f2 i)) * f2 i) = 0)
+    (k0 : S l (fun i => (y i - (a' * f0 i + b' * f1 i + c' * f2 i)) * f0 i) = 0)
+    (k1 : S l (fun i => (y i - (a' * f0 i + b' * f1 i + c' * f2 i)) * f1 i) = 0)
+    (k2 : S l (fun i => (y i - (a' * f0 i + b' * f1 i + c' * f2 i)) * f2 i) = 0)
+    (hd : S l (fun i => f0 i * f0 i) * S l (fun i => f1 i * f1 i) * S l (fun i => f2 i * f2 i)
+      + 2 * S l (fun i => f0 i * f1 i) * S l (fun i => f0 i * f2 i) * S l (fun i => f1 i * f2 i)
+      - S l (fun i => f0 i * f0 i) * S l (fun i => f1 i * f2 i) * S l (fun i => f1 i * f2 i)
+      - S l (fun i => f1 i * f1 i) * S l (fun i => f0 i * f2 i) * S l (fun i => f0 i * f2 i)
+      - S l (fun i => f2 i * f2 i) * S l (fun i => f0 i * f1 i) * S l (fun i => f0 i * f1 i) ≠ 0) :
+    a' = a ∧ b' = b ∧ c' = c := by
+  rw [S_resid] at h0 h1 h2 k0 k1 k2
+  have s01 : S l (fun i => f1 i * f0 i) = S l (fun i => f0 i * f1 i) := S_congr (fun i _ => mul_comm _ _)
+  have s02 : S l (fun i => f2 i * f0 i) = S l (fun i => f0 i * f2 i) := S_congr (fun i _ => mul_comm _ _)
+  have s12 : S l (fun i => f2 i * f1 i) = S l (fun i => f1 i * f2 i) := S_congr (fun i _ => mul_comm _ _)
+  rw [s01, s02] at h0 k0
+  rw [s12] at h1 k1
+  obtain ⟨ha, hb, hc⟩ := unique3 _ _ _ _ _ _ (a' - a) (b' - b) (c' - c) hd
+    (by linear_combination h0 - k0) (by linear_combination h1 - k1) (by linear_combination h2 - k2)
+  exact ⟨sub_eq_zero.mp ha, sub_eq_zero.mp hb, sub_eq_zero.mp hc⟩
+
 /-- Noiseless data are recovered by any solution of the normal equations (two basis functions). -/
 theorem recover2 (l : List ι) (y f0 f1 : ι → K) (a b a0 b0 : K)
     (hy : ∀ i ∈ l, y i = a0 * f0 i + b0 * f1 i)
